@@ -12,7 +12,7 @@ checks = sys.argv[3:] or [prop]
 wt = f"/tmp/seedeval-{os.getpid()}"
 subprocess.run(["git", "-C", "/repo", "worktree", "add", "-q", "--detach", wt, "HEAD"], check=True)
 res = {"seed": sid, "property": prop, "summary": meta.get("summary"), "needs_to_manifest": meta.get("needs_to_manifest"),
-       "files_touched": meta.get("files_touched"), "author_tests": meta.get("test_result")}
+       "files_touched": meta.get("files_touched"), "author_tests": meta.get("test_result") or meta.get("author_tests")}
 env = dict(os.environ, PYTHONPATH=wt, AIOHTTP_NO_EXTENSIONS="1", REPO=wt)
 def demo():
     r = subprocess.run(["/venv/bin/python", os.path.join(src, "demo.py"), wt], env=env, capture_output=True, text=True, timeout=180)
@@ -43,6 +43,7 @@ res["caught_by"] = [c for c, v in res.get("checks", {}).items() if v["rc"] == 1]
 d = os.path.join(HERE, "seeded", sid)
 os.makedirs(d, exist_ok=True)
 for f in ("patch.diff", "demo.py"):
-    shutil.copy(os.path.join(src, f), os.path.join(d, f))
+    if os.path.abspath(os.path.join(src, f)) != os.path.abspath(os.path.join(d, f)):
+        shutil.copy(os.path.join(src, f), os.path.join(d, f))
 json.dump(res, open(os.path.join(d, "meta.json"), "w"), indent=1)
 print(json.dumps({k: res[k] for k in ("seed", "confirmed_breaks_property_demo", "caught_by")}), {c: v["lines"][:2] for c, v in res.get("checks", {}).items()})
